@@ -51,21 +51,21 @@ pub fn dispatch(op: &str, _ty: &str, args: &[Arg]) -> Option<String> {
     let r: Option<String> = (|| {
         let a = sa(args.first()?)?;
         Some(match (&op[2..], &args[1..]) {
-            ("add", [b]) => res_sarr(&ArrayStringManipulate::add(&a, &sa(b)?)),
+            ("add", [b]) => w2(res_sarr(&ArrayStringManipulate::add(&a, &sa(b)?)), res_sarr(&ArrayStringManipulate::add(&okr(&a), &sa(b)?))),
             ("join", [b]) => w2(res_sarr(&a.join(&sa(b)?)), res_sarr(&okr(&a).join(&sa(b)?))),
             ("partition", [b]) => w2(res_t3(&a.partition(&sa(b)?)), res_t3(&okr(&a).partition(&sa(b)?))),
             ("rpartition", [b]) => w2(res_t3(&a.rpartition(&sa(b)?)), res_t3(&okr(&a).rpartition(&sa(b)?))),
-            ("count", [b]) => res_num(&ArrayStringIndexing::count(&a, &sa(b)?)),
+            ("count", [b]) => w2(res_num(&ArrayStringIndexing::count(&a, &sa(b)?)), res_num(&ArrayStringIndexing::count(&okr(&a), &sa(b)?))),
             ("starts_with", [b]) => w2(res_bool(&a.starts_with(&sa(b)?)), res_bool(&okr(&a).starts_with(&sa(b)?))),
             ("ends_with", [b]) => w2(res_bool(&a.ends_with(&sa(b)?)), res_bool(&okr(&a).ends_with(&sa(b)?))),
             ("find", [b]) => w2(res_num(&a.find(&sa(b)?)), res_num(&okr(&a).find(&sa(b)?))), ("rfind", [b]) => w2(res_num(&a.rfind(&sa(b)?)), res_num(&okr(&a).rfind(&sa(b)?))),
             ("index", [b]) => w2(res_num(&a.index(&sa(b)?)), res_num(&okr(&a).index(&sa(b)?))), ("rindex", [b]) => w2(res_num(&a.rindex(&sa(b)?)), res_num(&okr(&a).rindex(&sa(b)?))),
-            ("equal", [b]) => res_bool(&ArrayStringCompare::equal(&a, &sa(b)?)),
-            ("not_equal", [b]) => res_bool(&ArrayStringCompare::not_equal(&a, &sa(b)?)),
-            ("less", [b]) => res_bool(&ArrayStringCompare::less(&a, &sa(b)?)),
-            ("less_equal", [b]) => res_bool(&ArrayStringCompare::less_equal(&a, &sa(b)?)),
-            ("greater", [b]) => res_bool(&ArrayStringCompare::greater(&a, &sa(b)?)),
-            ("greater_equal", [b]) => res_bool(&ArrayStringCompare::greater_equal(&a, &sa(b)?)),
+            ("equal", [b]) => w2(res_bool(&ArrayStringCompare::equal(&a, &sa(b)?)), res_bool(&ArrayStringCompare::equal(&okr(&a), &sa(b)?))),
+            ("not_equal", [b]) => w2(res_bool(&ArrayStringCompare::not_equal(&a, &sa(b)?)), res_bool(&ArrayStringCompare::not_equal(&okr(&a), &sa(b)?))),
+            ("less", [b]) => w2(res_bool(&ArrayStringCompare::less(&a, &sa(b)?)), res_bool(&ArrayStringCompare::less(&okr(&a), &sa(b)?))),
+            ("less_equal", [b]) => w2(res_bool(&ArrayStringCompare::less_equal(&a, &sa(b)?)), res_bool(&ArrayStringCompare::less_equal(&okr(&a), &sa(b)?))),
+            ("greater", [b]) => w2(res_bool(&ArrayStringCompare::greater(&a, &sa(b)?)), res_bool(&ArrayStringCompare::greater(&okr(&a), &sa(b)?))),
+            ("greater_equal", [b]) => w2(res_bool(&ArrayStringCompare::greater_equal(&a, &sa(b)?)), res_bool(&ArrayStringCompare::greater_equal(&okr(&a), &sa(b)?))),
             ("capitalize", []) => w2(res_sarr(&a.capitalize()), res_sarr(&okr(&a).capitalize())), ("lower", []) => w2(res_sarr(&a.lower()), res_sarr(&okr(&a).lower())),
             ("upper", []) => w2(res_sarr(&a.upper()), res_sarr(&okr(&a).upper())), ("swapcase", []) => w2(res_sarr(&a.swapcase()), res_sarr(&okr(&a).swapcase())),
             ("str_len", []) => w2(res_num(&a.str_len()), res_num(&okr(&a).str_len())),
@@ -75,12 +75,12 @@ pub fn dispatch(op: &str, _ty: &str, args: &[Arg]) -> Option<String> {
             ("is_lower", []) => w2(res_bool(&a.is_lower()), res_bool(&okr(&a).is_lower())), ("is_upper", []) => w2(res_bool(&a.is_upper()), res_bool(&okr(&a).is_upper())),
             ("lstrip", [c]) => w2(res_sarr(&a.lstrip(osa(c)?)), res_sarr(&okr(&a).lstrip(osa(c)?))), ("rstrip", [c]) => w2(res_sarr(&a.rstrip(osa(c)?)), res_sarr(&okr(&a).rstrip(osa(c)?))),
             ("strip", [c]) => w2(res_sarr(&a.strip(osa(c)?)), res_sarr(&okr(&a).strip(osa(c)?))),
-            ("multiply", [n]) => res_sarr(&ArrayStringManipulate::multiply(&a, &ua(n)?)),
+            ("multiply", [n]) => w2(res_sarr(&ArrayStringManipulate::multiply(&a, &ua(n)?)), res_sarr(&ArrayStringManipulate::multiply(&okr(&a), &ua(n)?))),
             ("splitlines", [k]) => w2(res_list(&a.splitlines(oba(k)?)), res_list(&okr(&a).splitlines(oba(k)?))),
             ("center", [w, f]) => w2(res_sarr(&a.center(&ua(w)?, oca(f)?)), res_sarr(&okr(&a).center(&ua(w)?, oca(f)?))),
             ("ljust", [w, f]) => w2(res_sarr(&a.ljust(&ua(w)?, oca(f)?)), res_sarr(&okr(&a).ljust(&ua(w)?, oca(f)?))),
             ("rjust", [w, f]) => w2(res_sarr(&a.rjust(&ua(w)?, oca(f)?)), res_sarr(&okr(&a).rjust(&ua(w)?, oca(f)?))),
-            ("split", [s, l]) => res_list(&ArrayStringManipulate::split(&a, osa(s)?, oua(l)?)),
+            ("split", [s, l]) => w2(res_list(&ArrayStringManipulate::split(&a, osa(s)?, oua(l)?)), res_list(&ArrayStringManipulate::split(&okr(&a), osa(s)?, oua(l)?))),
             ("rsplit", [s, l]) => w2(res_list(&a.rsplit(osa(s)?, oua(l)?)), res_list(&okr(&a).rsplit(osa(s)?, oua(l)?))),
             ("compare", [b, Arg::S(name)]) => w2(res_bool(&a.compare(&sa(b)?, String::from_utf8(name.clone()).ok()?)), res_bool(&okr(&a).compare(&sa(b)?, String::from_utf8(name.clone()).ok()?))),
             ("translate", [Arg::L(tbl)]) => w2(res_sarr(&a.translate(tbl.chunks(2).filter(|p| p.len() == 2)
